@@ -86,24 +86,24 @@ int c30_search_standard_typename(const char *p, size_t size)
     return search_standard_typename(p, size);
 }
 
-/* The whole parser on a context without any declared name. */
-int c30_parse(const char *input, int output_size, long *error_location,
-              const char **error_message)
+/* The whole parser on a context without any declared name; the opcode buffer
+   (`output_size` entries) is supplied by the caller, who places it next to a
+   PROT_NONE page. */
+int c30_parse(const char *input, void *output, int output_size,
+              long *error_location, const char **error_message)
 {
     static struct _cffi_type_context_s ctx;
     struct _cffi_parse_info_s info;
-    _cffi_opcode_t *output = malloc(sizeof(_cffi_opcode_t) * (output_size + 1));
     int res;
     memset(&ctx, 0, sizeof(ctx));
     memset(&info, 0, sizeof(info));
     info.ctx = &ctx;
-    info.output = output;
+    info.output = (_cffi_opcode_t *)output;
     info.output_size = output_size;
     info.error_location = 0;
     info.error_message = NULL;
     res = parse_c_type(&info, input);
     *error_location = (long)info.error_location;
     *error_message = info.error_message;
-    free(output);
     return res;
 }
